@@ -270,7 +270,7 @@ def run_bounded(run, cfg):
                             'nontrivial': out.get('nontrivial', out['cases']),
                             'bound': item[2] if len(item) > 2 else out.get('bound', ''),
                             'wall_s': out['wall_s'], 'samples': out.get('samples', [])[:2]})
-        for fl in ([out['fail']] if out.get('fail') else []):
+        for fl in ([out['fail']] if out.get('fail') else []) + list(out.get('fails', [])):
             path = run.replay_path('bounded')
             json.dump({'property': run.pid, 'sidecar': sidecar, 'kind': 'custom', 'replay_fn': fl.get('replay_fn', fn + '_replay'),
                        'fid': fl.get('fid', f'{sidecar}.{fn}'), 'case': fl.get('case'), 'native': fl}, open(path, 'w'), indent=1)
